@@ -192,7 +192,7 @@ example : ∃ b, Lemmas.C03.BuiltFor (.list (.mk "element" .int32 true [])) true
     ⟨.mk "element" .int32 true [], by simp, rfl, rfl, by simp [Lemmas.C03.BuiltFor, Lemmas.C03.leafDT, Lemmas.C03.intDT,
       Field.dataType, Field.nullable]⟩,
     by simp [WFB, VLen, OffsOK, dec, maskNull], by simp [Lemmas.C03.Sound],
-    by simp [Lemmas.C03.WFX, dec, maskNull, offMax, Lemmas.C03.leafRange, inRng, primRange, primOfInt], by decide⟩
+    by simp [Lemmas.C03.WFX, offMax, Lemmas.C03.leafRange, inRng, primRange, primOfInt], by decide⟩
 
 /-- the builder created for a field stands for it (every Map type with exactly two entry children) -/
 theorem newB_builtFor (path : String) (f : Field) (b : B) (hm : Lemmas.C03.Map2F f) (h : newB path f = .ok b) :
